@@ -2,40 +2,54 @@
     // values of `w` bits each, written one after the other, most significant bit first; stream bit k lives in byte k/8 at bit 7 - k%8.
     //     stream bit (i*w + j) == bit (w-1-j) of value i            (0 <= j < w)
     // COMPLETE proofs: every value array, every initial buffer content, every width of the stated range; the position (i, j) that is
-    // compared is symbolic as well, so one assertion covers every bit of the output.  No loop except the 1..=7 tail values (unwind 9).
+    // compared is either symbolic (one assertion covers every bit) or runs over all 8*w constant positions (block functions).  Loops have
+    // constant bounds and are fully unwound (unwinding assertions on): the widths of a range (<= 8, width constant in each iteration), the
+    // bit positions of a block (<= 63 per value), the 1..=7 tail values, the byte loop of pack_value/unpack_value (<= 8).
     // These are the contracts the VX unit theta_codec assumes for pack_bits_block / unpack_bits_block / BitPacker / BitUnpacker.
 
     fn vk_mask(w: u8) -> u64 { if w >= 64 { u64::MAX } else { (1u64 << w) - 1 } }
     fn vk_stream_bit(buf: &[u8], k: usize) -> u8 { (buf[k >> 3] >> (7 - (k & 7))) & 1 }
 
-    // pack_bits_block(v, bytes[..w], w): every bit of bytes[0..w] is (over)written with the reference stream of v & mask (high bits of v ignored)
-    fn vk_pack_block_stream(lo: u8, hi: u8) {
-        let w: u8 = kani::any(); kani::assume(lo <= w && w <= hi);
+    // pack_bits_block(v, bytes[..w], w): every bit of bytes[0..w] is (over)written with the reference stream of v & mask (high bits of v ignored).
+    // The width is a constant inside each call (the range loop below is unrolled), so CBMC sees one pack_bits_<w> at a time.
+    fn vk_pack_block_stream_one(w: u8) {
         let v: [u64; 8] = kani::any();
         let mut buf: [u8; 63] = kani::any();            // arbitrary previous content
         pack_bits_block(&v, &mut buf[..w as usize], w);
-        let i: usize = kani::any(); kani::assume(i < 8);
-        let j: u8 = kani::any(); kani::assume(j < w);
-        let k = i * (w as usize) + j as usize;
-        assert!(vk_stream_bit(&buf, k) == ((v[i] >> (w - 1 - j)) & 1) as u8);
+        let mut i = 0usize;
+        while i < 8 {
+            let mut j = 0u8;
+            while j < w {                               // constant positions: 8*w one-bit comparisons
+                let k = i * (w as usize) + j as usize;
+                assert!(vk_stream_bit(&buf, k) == ((v[i] >> (w - 1 - j)) & 1) as u8);
+                j += 1;
+            }
+            i += 1;
+        }
     }
+    fn vk_pack_block_stream(lo: u8, hi: u8) { let mut c = lo; while c <= hi { vk_pack_block_stream_one(c); c += 1; } }
 
     // unpack_bits_block(out, bytes[..w], w) on ARBITRARY bytes: out[i] < 2^w and bit (w-1-j) of out[i] is stream bit i*w + j
-    fn vk_unpack_block_stream(lo: u8, hi: u8) {
-        let w: u8 = kani::any(); kani::assume(lo <= w && w <= hi);
+    fn vk_unpack_block_stream_one(w: u8) {
         let buf: [u8; 63] = kani::any();
         let mut out: [u64; 8] = kani::any();            // arbitrary previous content
         unpack_bits_block(&mut out, &buf[..w as usize], w);
-        let i: usize = kani::any(); kani::assume(i < 8);
-        let j: u8 = kani::any(); kani::assume(j < w);
-        let k = i * (w as usize) + j as usize;
-        assert!(((out[i] >> (w - 1 - j)) & 1) as u8 == vk_stream_bit(&buf, k));
-        assert!(out[i] & !vk_mask(w) == 0);
+        let mut i = 0usize;
+        while i < 8 {
+            let mut j = 0u8;
+            while j < w {
+                let k = i * (w as usize) + j as usize;
+                assert!(((out[i] >> (w - 1 - j)) & 1) as u8 == vk_stream_bit(&buf, k));
+                j += 1;
+            }
+            assert!(out[i] & !vk_mask(w) == 0);
+            i += 1;
+        }
     }
+    fn vk_unpack_block_stream(lo: u8, hi: u8) { let mut c = lo; while c <= hi { vk_unpack_block_stream_one(c); c += 1; } }
 
     // unpack_bits_block(pack_bits_block(v, w), w) == v for every v with v[i] < 2^w
-    fn vk_block_roundtrip(lo: u8, hi: u8) {
-        let w: u8 = kani::any(); kani::assume(lo <= w && w <= hi);
+    fn vk_block_roundtrip_one(w: u8) {
         let mut v: [u64; 8] = kani::any();
         let m = vk_mask(w);
         v[0] &= m; v[1] &= m; v[2] &= m; v[3] &= m; v[4] &= m; v[5] &= m; v[6] &= m; v[7] &= m;
@@ -43,31 +57,76 @@
         pack_bits_block(&v, &mut buf[..w as usize], w);
         let mut out: [u64; 8] = kani::any();
         unpack_bits_block(&mut out, &buf[..w as usize], w);
-        assert!(out == v);
+        assert!(out[0] == v[0] && out[1] == v[1] && out[2] == v[2] && out[3] == v[3] && out[4] == v[4] && out[5] == v[5] && out[6] == v[6] && out[7] == v[7]);
     }
+    fn vk_block_roundtrip(lo: u8, hi: u8) { let mut c = lo; while c <= hi { vk_block_roundtrip_one(c); c += 1; } }
 
-    // the tail: n in 1..=7 values through BitPacker into a zeroed block of w bytes (as serialize_v4 does):
-    // byte_used() == ceil(n*w/8); the first n*w stream bits are the reference stream; the padding bits of the last byte are 0
+    // the tail: n in 1..=7 values through a fresh BitPacker into a buffer of ANY previous content and any sufficient length (serialize_v4: w zero bytes):
+    // byte_index/byte_bit_used are the bit position n*w, byte_used() == ceil(n*w/8); the first n*w stream bits are the reference stream;
+    // the padding bits of the last byte are 0; bytes after byte_used() are untouched
     fn vk_tail_pack_stream(lo: u8, hi: u8) {
         let w: u8 = kani::any(); kani::assume(lo <= w && w <= hi);
         let n: usize = kani::any(); kani::assume(1 <= n && n <= 7);
         let v: [u64; 7] = kani::any();
-        let mut buf = [0u8; 64];
-        let used;
+        let init: [u8; 64] = kani::any();
+        let mut buf = init;
+        let nbits = n * (w as usize);
+        let len: usize = kani::any(); kani::assume(len <= 64 && nbits <= 8 * len);
+        let used; let bi; let bu;
         {
-            let mut packer = BitPacker::new(&mut buf[..w as usize]);
+            let mut packer = BitPacker::new(&mut buf[..len]);
             let mut t = 0usize;
             while t < 7 { if t < n { packer.pack_value(v[t], w); } t += 1; }
-            used = packer.byte_used();
+            used = packer.byte_used(); bi = packer.byte_index; bu = packer.byte_bit_used;
         }
-        let nbits = n * (w as usize);
         assert!(used == (nbits + 7) / 8);
+        assert!(bi == nbits / 8 && bu as usize == nbits % 8);
         let i: usize = kani::any(); kani::assume(i < n);
         let j: u8 = kani::any(); kani::assume(j < w);
         let k = i * (w as usize) + j as usize;
         assert!(vk_stream_bit(&buf, k) == ((v[i] >> (w - 1 - j)) & 1) as u8);
-        let p: usize = kani::any(); kani::assume(nbits <= p && p < 8 * used);
-        assert!(vk_stream_bit(&buf, p) == 0);
+        let p: usize = kani::any(); kani::assume(nbits <= p && p < 8 * 64);
+        if p < 8 * used { assert!(vk_stream_bit(&buf, p) == 0); } else { assert!(vk_stream_bit(&buf, p) == vk_stream_bit(&init, p)); }
+    }
+
+    // one pack_value from an ARBITRARY packer state whose current byte has zero padding (the state every pack_value leaves behind):
+    // earlier bits kept, the next w bits are the value MSB first, the rest of the last touched byte is 0, later bytes untouched
+    fn vk_pack_value_step(lo: u8, hi: u8) {
+        let w: u8 = kani::any(); kani::assume(lo <= w && w <= hi);
+        let value: u64 = kani::any();
+        let init: [u8; 24] = kani::any();
+        let mut buf = init;
+        let bi: usize = kani::any(); let bu: u8 = kani::any(); kani::assume(bi <= 15 && bu < 8);
+        let p0 = 8 * bi + bu as usize;
+        if bu > 0 { kani::assume(init[bi] & (0xffu8 >> bu) == 0); }
+        let (bi2, bu2);
+        {
+            let mut packer = BitPacker { bytes: &mut buf[..], byte_index: bi, byte_bit_used: bu };
+            packer.pack_value(value, w);
+            bi2 = packer.byte_index; bu2 = packer.byte_bit_used;
+        }
+        let p1 = p0 + w as usize;
+        assert!(bu2 < 8 && 8 * bi2 + bu2 as usize == p1);
+        let k: usize = kani::any(); kani::assume(k < 8 * 24);
+        let end = (p1 + 7) / 8 * 8;
+        if k < p0 { assert!(vk_stream_bit(&buf, k) == vk_stream_bit(&init, k)); }
+        else if k < p1 { assert!(vk_stream_bit(&buf, k) == ((value >> (w as usize - 1 - (k - p0))) & 1) as u8); }
+        else if k < end { assert!(vk_stream_bit(&buf, k) == 0); }
+        else { assert!(vk_stream_bit(&buf, k) == vk_stream_bit(&init, k)); }
+    }
+
+    // one unpack_value from an ARBITRARY unpacker state on arbitrary bytes: the value spelled by the next w stream bits, position advanced by w
+    fn vk_unpack_value_step(lo: u8, hi: u8) {
+        let w: u8 = kani::any(); kani::assume(lo <= w && w <= hi);
+        let buf: [u8; 24] = kani::any();
+        let bi: usize = kani::any(); let bu: u8 = kani::any(); kani::assume(bi <= 15 && bu < 8);
+        let p0 = 8 * bi + bu as usize;
+        let mut unpacker = BitUnpacker { bytes: &buf[..], byte_index: bi, byte_bit_used: bu };
+        let x = unpacker.unpack_value(w);
+        assert!(unpacker.byte_bit_used < 8 && 8 * unpacker.byte_index + unpacker.byte_bit_used as usize == p0 + w as usize);
+        let j: u8 = kani::any(); kani::assume(j < w);
+        assert!(((x >> (w - 1 - j)) & 1) as u8 == vk_stream_bit(&buf, p0 + j as usize));
+        assert!(x & !vk_mask(w) == 0);
     }
 
     // BitUnpacker on ARBITRARY bytes (ceil(n*w/8) of them, as deserialize_v4 reads): value i < 2^w, its bit (w-1-j) is stream bit i*w + j
@@ -117,16 +176,23 @@
             $( #[kani::proof] #[kani::unwind($u)] fn $name() { $f($lo, $hi) } )*
         };
     }
-    vk_ranges!(vk_pack_block_stream, 9:
-        bp_pack_stream_w01_16 = 1..=16, bp_pack_stream_w17_32 = 17..=32, bp_pack_stream_w33_48 = 33..=48, bp_pack_stream_w49_63 = 49..=63);
-    vk_ranges!(vk_unpack_block_stream, 9:
-        bp_unpack_stream_w01_16 = 1..=16, bp_unpack_stream_w17_32 = 17..=32, bp_unpack_stream_w33_48 = 33..=48, bp_unpack_stream_w49_63 = 49..=63);
+    vk_ranges!(vk_pack_block_stream, 65:
+        bp_pack_stream_w01_08 = 1..=8, bp_pack_stream_w09_16 = 9..=16, bp_pack_stream_w17_24 = 17..=24, bp_pack_stream_w25_32 = 25..=32,
+        bp_pack_stream_w33_40 = 33..=40, bp_pack_stream_w41_48 = 41..=48, bp_pack_stream_w49_56 = 49..=56, bp_pack_stream_w57_63 = 57..=63);
+    vk_ranges!(vk_unpack_block_stream, 65:
+        bp_unpack_stream_w01_08 = 1..=8, bp_unpack_stream_w09_16 = 9..=16, bp_unpack_stream_w17_24 = 17..=24, bp_unpack_stream_w25_32 = 25..=32,
+        bp_unpack_stream_w33_40 = 33..=40, bp_unpack_stream_w41_48 = 41..=48, bp_unpack_stream_w49_56 = 49..=56, bp_unpack_stream_w57_63 = 57..=63);
     vk_ranges!(vk_block_roundtrip, 9:
-        bp_block_rt_w01_08 = 1..=8, bp_block_rt_w09_16 = 9..=16, bp_block_rt_w17_22 = 17..=22, bp_block_rt_w23_28 = 23..=28,
-        bp_block_rt_w29_33 = 29..=33, bp_block_rt_w34_38 = 34..=38, bp_block_rt_w39_43 = 39..=43, bp_block_rt_w44_47 = 44..=47,
-        bp_block_rt_w48_51 = 48..=51, bp_block_rt_w52_55 = 52..=55, bp_block_rt_w56_59 = 56..=59, bp_block_rt_w60_63 = 60..=63);
+        bp_block_rt_w01_08 = 1..=8, bp_block_rt_w09_14 = 9..=14, bp_block_rt_w15_19 = 15..=19, bp_block_rt_w20_24 = 20..=24,
+        bp_block_rt_w25_28 = 25..=28, bp_block_rt_w29_32 = 29..=32, bp_block_rt_w33_36 = 33..=36, bp_block_rt_w37_40 = 37..=40,
+        bp_block_rt_w41_44 = 41..=44, bp_block_rt_w45_48 = 45..=48, bp_block_rt_w49_52 = 49..=52, bp_block_rt_w53_56 = 53..=56,
+        bp_block_rt_w57_60 = 57..=60, bp_block_rt_w61_63 = 61..=63);
     vk_ranges!(vk_tail_pack_stream, 9:
         bp_tail_pack_stream_w01_32 = 1..=32, bp_tail_pack_stream_w33_63 = 33..=63);
+    vk_ranges!(vk_pack_value_step, 9:
+        bp_pack_value_step_w01_32 = 1..=32, bp_pack_value_step_w33_64 = 33..=64);
+    vk_ranges!(vk_unpack_value_step, 9:
+        bp_unpack_value_step_w01_32 = 1..=32, bp_unpack_value_step_w33_64 = 33..=64);
     vk_ranges!(vk_tail_unpack_stream, 9:
         bp_tail_unpack_stream_w01_32 = 1..=32, bp_tail_unpack_stream_w33_63 = 33..=63);
     vk_ranges!(vk_tail_roundtrip, 9:
